@@ -337,6 +337,9 @@ type EnumCtx struct {
 	// Expired reports that the batch's wall-clock budget is used up: the
 	// enumerator stops between cases and says so in its summary.
 	Expired func() bool
+	// FromGroup: groups (corpus items) with a smaller index were enumerated by an earlier process
+	// of this shard, which asked for a fresh one (Summary.Extra["restart_from_group"]).
+	FromGroup int
 }
 
 var Registry = map[string]*Prop{}
